@@ -61,6 +61,10 @@ CHECKS = {
          "Setters must accept exactly the documented ranges (and equal-value idempotence); every Ok result of to_naive_date, to_naive_time, to_naive_datetime_with_offset, to_datetime and to_datetime_with_timezone must agree with every supplied field (second 60 <-> leap second, timestamp equal or +1 on a leap second); uncorrupted, determinate, sufficient sets must resolve to exactly the value, uncorrupted insufficient sets must give NOT_ENOUGH, sufficient contradictory sets IMPOSSIBLE or OUT_OF_RANGE; nothing may panic.",
          "Trusted base: field derivation and sufficiency rules in harness/src/props/c14.rs (from the documented list of sufficient combinations) and R-cal. Not judged (statement silent): century/two-digit fields on negative years, indeterminate year groups, a leap-second value without its second field, a timestamp with a missing non-zero second.",
          "DESIGN.md section 3 C14"),
+ "C16": ("proptest: model-driven TZif files (v1/v2/v3, 0-2000 transitions, extreme 64-bit times) and grammar-driven TZ strings that must be accepted with an identical structural dump; twenty classes of structured mutations and fifteen TZ-string defects that must be rejected; byte-flipped/header-randomised/arbitrary bytes; exhaustive strict prefixes of sampled files; every system zoneinfo file; panic monitor + counting allocator",
+         "Accepted inputs: the hook's structural dump (transition times/type indices, types, footer rule) must equal exactly what the reference writer wrote, and for system files what the independent reader reads. Rejected inputs: each mutation introduces one defect by construction (truncation, magic/version, count mismatch or extreme, unsorted/duplicate transitions, index out of bounds, unterminated abbreviation, dst byte, forbidden indicator pair, five footer defects, utoff = i32::MIN, trailing byte) and must yield Err. All inputs: no panic, peak heap <= 16 x input + 64 KiB (per-thread counting global allocator), and every accepted zone answers both lookups at i64 extremes, at chrono's MIN/MAX and around its transitions without panicking. Thorough tier adds libFuzzer targets tzif/tzstring with the same oracle.",
+         "Trusted base: reference TZif writer/reader and TZ grammar in harness/src/refmodel/zone.rs (validated against CPython's zoneinfo), the counting allocator in harness/src/alloc_track.rs. Hangs would surface as the driver's watchdog (exit 2), not as violations.",
+         "DESIGN.md section 3 C16"),
  "C17": ("proptest over stamps inside/outside the i64-nanosecond window, log-uniform/tie-making/invalid spans, offsets and digit counts, differential against floor/ceil arithmetic on i128 wall-clock stamps",
          "duration_trunc/round/round_up on NaiveDateTime and DateTime<FixedOffset> must return exactly floor/ceil/nearest-ties-up multiples of the span on the wall-clock stamp with the offset kept, be idempotent while the result stays inside the window, and report DurationExceedsLimit / TimestampExceedsLimit exactly for the three stated causes, never panicking (incl. headroom wall clocks); round_subsecs/trunc_subsecs on NaiveTime, NaiveDateTime and DateTime for all digit counts with carry. Leap-second operands: no panic, valid values, sub-second idempotence only.",
          "Trusted base: i128 div_euclid arithmetic (harness/src/props/c17.rs).",
